@@ -5,7 +5,7 @@ import os, json, shutil, re, sys
 SRC = "/var/tmp/seedsrc"
 OUT = "/verif/seeded"
 conf = {}
-for f in ("/var/tmp/confirm_all.txt", "/var/tmp/confirm_all2.txt", "/var/tmp/confirm_all3.txt", "/var/tmp/confirm_all4.txt", "/var/tmp/confirm_all5.txt", "/var/tmp/confirm_all6.txt", "/var/tmp/confirm_all7.txt"):
+for f in ("/var/tmp/confirm_all.txt", "/var/tmp/confirm_all2.txt", "/var/tmp/confirm_all3.txt", "/var/tmp/confirm_all4.txt", "/var/tmp/confirm_all5.txt", "/var/tmp/confirm_all6.txt", "/var/tmp/confirm_all7.txt", "/var/tmp/confirm_all8.txt"):
     if os.path.exists(f):
         for line in open(f):
             m = re.match(r"(\S+) suite_with_change_rc=(\d+) failed_targets=(\d+) demo_with_change_rc=(\d+) demo_without_change_rc=(\d+)", line)
@@ -76,6 +76,17 @@ T = {  # id: (property, needs to manifest, demo features, caught by)
  "C15w": ("C15", "WaitForGuard built with the callee's id instead of the caller's: Drop removes the wrong key, the edge stays, a later reverse ask panics with a false deadlock", "deadlock-detection", "undecided deductively (registration moved into WaitForGuard::enter) -> bounded stand-in: dd scenarios (dd_no_residue)"),
  "C16w": ("C16", "timed-out tell/ask through a boxed handler: *_with_timeout become provided trait methods over tell/ask + a deadline helper - Error::Timeout is reproduced, the dead letter is not", "test-utils", "undecided deductively: the R4 guard refuses a future passed to a helper (before the guard this text VERIFIED - a soundness hole closed by this seed) -> bounded stand-in: scenario erased_handles (now checks dead letters of timed-out erased sends)"),
  "C20w": ("C20", "graceful stop: the metrics guard hoisted above `match maybe_message` is created for the stop marker too - message_count + 1 and on_stop time in the averages", "metrics", "undecided deductively (guard wrapped in Option::map) -> bounded stand-in: scenario metrics_counts"),
+ # ---- round 8: less-travelled corners (accessors, errors, cfg-gated code, metrics) and "performance improvements"
+ "C05x": ("C05", "Failed{actor: Some(..)}: into_actor() rewritten as to_result().ok() returns None although the actor is there", "-", "deductive: actor_result.into_actor.agrees_with_fields"),
+ "C10x": ("C10", "blocking_*(Some(d)) to a stopped actor / dropped reply: nested result flattened with .ok().and_then(Result::ok) - the inner Send/Receive error is reported as Timeout", "-", "bounded stand-in (always on): scenario blocking_timeout (the stopped-actor check now also speaks for C10); the changed code is not under contract"),
+ "C18x": ("C18", "with deadlock-detection: registration moved to lib.rs::register_wait, guard built with the callee's id - the edge stays, a later reverse ask panics with a false deadlock", "deadlock-detection", "undecided deductively (proof-hint anchor moved into a helper of ANOTHER file) -> bounded stand-in: dd scenarios, now also registered for C18 (run with the features enabled)"),
+ "C20x": ("C20", "graceful stop: timing guard created before `match maybe_message` - the stop marker is counted, on_stop time feeds max/avg", "metrics", "deductive: lifecycle.inv.metrics_guard_closed"),
+ "C20y": ("C20", "handler longer than one second: record_message computes as_secs()*1_000_000 + subsec_nanos() (micros for nanos)", "metrics", "deductive: metrics.record.total_saturating_add (after adding Duration::subsec_* to the shim; before: undecided, missed)"),
+ "C02x": ("C02", "stop() on a full mailbox returns at once and queues the marker from a spawned task: a later tell overtakes it", "-", "undecided deductively (tokio::spawn of a closure) -> bounded stand-in: explorer O4"),
+ "C03x": ("C03", "ask_join races the JoinHandle against sender.closed(): actor stopped after replying -> task aborted, fabricated Err(Receive)", "-", "undecided deductively (select! over a pinned handle) -> bounded stand-in: new scenario ask_join_outlives_actor (before: missed)"),
+ "C06x": ("C06", "kill() while a backlog is queued: control branch guarded by `!receiver.is_empty()` - the backlog is drained first", "-", "deductive: lifecycle.select.inv.control_branch_unconditional; witness reproduces"),
+ "C08x": ("C08", "on_run returned Ok(false); a burst of tells then a drained mailbox: `idle_enabled = true` on resume forgets it", "-", "deductive: lifecycle.select.inv.idle_flag_tracks_ok_false; witness reproduces"),
+ "C11x": ("C11", "two threads spawn concurrently: thread-local id blocks computed as block+1 instead of block*64+1 overlap", "-", "undecided deductively (thread_local!, new statics) -> bounded stand-in: scenario identity_and_liveness (16 threads)"),
 }
 os.makedirs(OUT, exist_ok=True)
 for sid, (prop, needs, feats, caught) in sorted(T.items()):
